@@ -34,8 +34,8 @@ func feedRunMain(args []string) error {
 	_ = fs.Parse(args)
 	base := world.New(world.Params{Logs: []string{"l1"}, MaxSize: 3, NBranch: 2, ForkAt: []int{1}, MaxLines: 6, NWitKeys: 2, Embed: "id", Seed: *seed})
 	scripts := [][]runCycle{
-		{{N: 1}, {N: 1}, {N: 1}, {N: 2}, {N: 2}, {N: 3}, {N: 3}},                      // idle log, then growth
-		{{N: 2}, {N: 2}, {N: 2, Third: 3}, {N: 2}, {N: 3}, {N: 3}},                    // idle log while a third party moves the witness ahead
+		{{N: 1}, {N: 1}, {N: 1}, {N: 2}, {N: 2}, {N: 3}, {N: 3}},                     // idle log, then growth
+		{{N: 2}, {N: 2}, {N: 2, Third: 3}, {N: 2}, {N: 3}, {N: 3}},                   // idle log while a third party moves the witness ahead
 		{{N: 1}, {N: 1, Third: 2}, {N: 1}, {N: 2}, {N: 2, Third: 3}, {N: 2}, {N: 3}}, // ... twice
 		{{N: 1}, {N: 2}, {N: 3}, {N: 3}, {N: 3}},
 	}
